@@ -58,6 +58,8 @@ enum ConnType {
     Tls(TlsStream<TcpStream>),
     #[cfg(unix)]
     Unix(UnixStream),
+    #[cfg(ldap3_verif)]
+    Verif(Box<dyn crate::verif::VerifIo>),
 }
 
 #[cfg(feature = "tls-rustls")]
@@ -157,6 +159,8 @@ impl AsyncRead for ConnType {
             ConnType::Tls(tls) => Pin::new(tls).poll_read(cx, buf),
             #[cfg(unix)]
             ConnType::Unix(us) => Pin::new(us).poll_read(cx, buf),
+            #[cfg(ldap3_verif)]
+            ConnType::Verif(io) => Pin::new(io).poll_read(cx, buf),
         }
     }
 }
@@ -169,6 +173,8 @@ impl AsyncWrite for ConnType {
             ConnType::Tls(tls) => Pin::new(tls).poll_write(cx, buf),
             #[cfg(unix)]
             ConnType::Unix(us) => Pin::new(us).poll_write(cx, buf),
+            #[cfg(ldap3_verif)]
+            ConnType::Verif(io) => Pin::new(io).poll_write(cx, buf),
         }
     }
 
@@ -179,6 +185,8 @@ impl AsyncWrite for ConnType {
             ConnType::Tls(tls) => Pin::new(tls).poll_flush(cx),
             #[cfg(unix)]
             ConnType::Unix(us) => Pin::new(us).poll_flush(cx),
+            #[cfg(ldap3_verif)]
+            ConnType::Verif(io) => Pin::new(io).poll_flush(cx),
         }
     }
 
@@ -189,6 +197,8 @@ impl AsyncWrite for ConnType {
             ConnType::Tls(tls) => Pin::new(tls).poll_shutdown(cx),
             #[cfg(unix)]
             ConnType::Unix(us) => Pin::new(us).poll_shutdown(cx),
+            #[cfg(ldap3_verif)]
+            ConnType::Verif(io) => Pin::new(io).poll_shutdown(cx),
         }
     }
 }
@@ -867,5 +877,13 @@ impl LdapConnAsync {
             }
         }
         Ok(self)
+    }
+}
+
+#[cfg(ldap3_verif)]
+impl LdapConnAsync {
+    /// Build a connection/handle pair over a caller-supplied in-process transport.
+    pub fn verif_from_io(io: Box<dyn crate::verif::VerifIo>) -> (Self, Ldap) {
+        Self::conn_pair(ConnType::Verif(io))
     }
 }
